@@ -89,9 +89,14 @@ Definition err_eqb (a b : err) : bool :=
 
 (* what the client created before the handshake (initMemManager): two memory objects with
    identities qobj / bobj (inode or memfd), named by the two paths *)
+(* [cgen] / [sgen]: the highest protocol generation the client / the server advertises in the version
+   exchange.  For this code base both are c_maxSupportProtoVersion; a NEWER peer (4, 5, ... 255) that
+   otherwise follows the exchange is the same machine with a larger number: it announces its own highest
+   version and both take the minimum. *)
 Record config := {
   mt : memtype; unix : bool;
-  qpath : bytes; bpath : bytes; qobj : Z; bobj : Z }.
+  qpath : bytes; bpath : bytes; qobj : Z; bobj : Z;
+  cgen : Z; sgen : Z }.
 
 (* checkEventValid *)
 Definition check_valid (h : hdr) : option err :=
@@ -212,7 +217,7 @@ Definition cstep (cfg : config) (pc : cpc_t) (ver : Z) (inbox : list frame) (pee
                   [FBytes (generate c_protoVersion c_typeShareMemoryByFilePath (qpath cfg) (bpath cfg))]
                   (CDone ROk))
       | MMemfd =>
-          Some (cwrite peer_open ver inbox [] [hdr8 c_maxSupportProtoVersion c_typeExchangeProtoVersion] CWaitVer)
+          Some (cwrite peer_open ver inbox [] [hdr8 (cgen cfg) c_typeExchangeProtoVersion] CWaitVer)
       end
   | CWaitVer =>
       match read_frame inbox peer_open with
@@ -223,7 +228,7 @@ Definition cstep (cfg : config) (pc : cpc_t) (ver : Z) (inbox : list frame) (pee
           match expect h c_typeExchangeProtoVersion with
           | Some e => Some (cfail ver rest [FBytes whole] e)
           | None =>
-              let chosen := Z.min c_maxSupportProtoVersion (h_ver h) in
+              let chosen := Z.min (cgen cfg) (h_ver h) in
               if chosen =? c_initializerVersion_2 then   (* V2 initialiser on the client: file-path message, no ack *)
                 Some (cwrite peer_open c_initializerVersion_2 rest [FBytes whole]
                         [FBytes (generate c_initializerVersion_2 c_typeShareMemoryByFilePath (qpath cfg) (bpath cfg))] (CDone ROk))
@@ -303,7 +308,7 @@ Definition handle_file (f : list mapping) (ver : Z) (h : hdr) (whole : bytes) (r
   end.
 
 (* serverGetProtocolInitializer + initializer.Init of V2 / V3 *)
-Definition sstep (f : list mapping) (pc : spc_t) (ver : Z) (inbox : list frame) (peer_open : bool)
+Definition sstep (g : Z) (f : list mapping) (pc : spc_t) (ver : Z) (inbox : list frame) (peer_open : bool)
   : option sstep_out :=
   match pc with
   | SDone _ => None
@@ -320,13 +325,15 @@ Definition sstep (f : list mapping) (pc : spc_t) (ver : Z) (inbox : list frame) 
                 if h_type h =? c_typeShareMemoryByFilePath
                 then handle_file f c_initializerVersion_2 h whole rest peer_open []
                 else Some (sfail c_initializerVersion_2 None rest [FBytes whole] (RErr EUnexpectedType))
-              else if h_ver h =? c_initializerVersion_3 then
+              else if c_initializerVersion_3 <=? Z.min (h_ver h) g then
+                (* serverGetProtocolInitializer serves a client of a newer generation with the initialiser of
+                   its own highest version (g = maxSupportProtoVersion = 3 here) *)
                 if h_type h =? c_typeExchangeProtoVersion then
-                  let v := Z.min (h_ver h) c_maxSupportProtoVersion in
+                  let v := Z.min (h_ver h) g in
                   if peer_open
                   then Some {| so_pc := SWaitMeta; so_ver := v; so_mapq := None; so_mapb := None; so_inbox := rest;
                                so_cons := [FBytes whole];
-                               so_write := [hdr8 c_maxSupportProtoVersion c_typeExchangeProtoVersion] |}
+                               so_write := [hdr8 g c_typeExchangeProtoVersion] |}
                   else Some (sfail v None rest [FBytes whole] (RErr EPipe))
                 else Some (sfail c_initializerVersion_3 None rest [FBytes whole] (RErr EUnexpectedType))
               else Some (sfail ver None rest [FBytes whole] (RErr EUnsupportedVersion))
@@ -450,7 +457,7 @@ Definition step (cfg : config) (w : world) (l : label) : world :=
       else w
   | LS =>
       if s_running s then
-        match sstep (fs w) (spc s) (sver s) (c2s w) (copen c && negb (stimed s)) with
+        match sstep (sgen cfg) (fs w) (spc s) (sver s) (c2s w) (copen c && negb (stimed s)) with
         | None => w
         | Some o =>
             {| wc := c;
@@ -518,21 +525,21 @@ Definition run (cfg : config) (sch : list label) (w : world) : world := fold_lef
 
 (* the version both ends must agree on: the client announces 2 (file, no exchange) or its highest *)
 Definition client_version (cfg : config) : Z :=
-  match mt cfg with MFile => c_protoVersion | MMemfd => c_maxSupportProtoVersion end.
-Definition negotiated (cfg : config) : Z := Z.min (client_version cfg) c_maxSupportProtoVersion.
+  match mt cfg with MFile => c_protoVersion | MMemfd => cgen cfg end.
+Definition negotiated (cfg : config) : Z := Z.min (client_version cfg) (sgen cfg).
 
 (* what the honest ends ever write (used by the proofs and by the correspondence) *)
 Definition cscript (cfg : config) : list frame :=
   match mt cfg with
   | MFile => [FBytes (generate c_protoVersion c_typeShareMemoryByFilePath (qpath cfg) (bpath cfg))]
-  | MMemfd => [hdr8 c_maxSupportProtoVersion c_typeExchangeProtoVersion;
+  | MMemfd => [hdr8 (cgen cfg) c_typeExchangeProtoVersion;
                FBytes (generate c_initializerVersion_3 c_typeShareMemoryByMemfd (qpath cfg) (bpath cfg));
                FFds [bobj cfg; qobj cfg]]
   end.
 Definition sscript (cfg : config) : list frame :=
   match mt cfg with
   | MFile => []
-  | MMemfd => [hdr8 c_maxSupportProtoVersion c_typeExchangeProtoVersion;
+  | MMemfd => [hdr8 (sgen cfg) c_typeExchangeProtoVersion;
                hdr8 c_initializerVersion_3 c_typeAckReadyRecvFD; hdr8 c_initializerVersion_3 c_typeAckShareMemory]
   end.
 
